@@ -1,0 +1,12 @@
+//go:build verif
+
+package wallet
+
+// verification hook (H2): exposes the phrase encoder and word list, which are
+// otherwise only reachable through NewSeedPhrase's random entropy.
+
+// VerifEncodePhrase encodes entropy as a 12-word phrase.
+func VerifEncodePhrase(entropy *[16]byte) string { return encodeBIP39Phrase(entropy) }
+
+// VerifWordList returns a copy of the word list.
+func VerifWordList() []string { return append([]string(nil), bip39EnglishWordList...) }
